@@ -13,6 +13,7 @@ type ExecFn func(script []int) (class string, values []int, spans []Span)
 // then lower values.  Returns the smallest script found and the number of
 // executions spent.
 func Shrink(script []int, want string, exec ExecFn, budget int) (best []int, execs int) {
+	same := func(class string) bool { return SameClass(class, want) }
 	best = append([]int(nil), script...)
 	var spans []Span
 	try := func(cand []int) bool {
@@ -21,7 +22,7 @@ func Shrink(script []int, want string, exec ExecFn, budget int) (best []int, exe
 		}
 		execs++
 		class, values, sp := exec(cand)
-		if class != want {
+		if !same(class) {
 			return false
 		}
 		// normalise to what the execution really consumed
@@ -128,4 +129,17 @@ func sortSpans(sp []Span) {
 			sp[j], sp[j-1] = sp[j-1], sp[j]
 		}
 	}
+}
+
+// SameClass reports whether two violation classes denote the same violation
+// for the purposes of confirmation and shrinking.  Race reports are compared
+// by kind only: which pair of conflicting accesses the detector names for a
+// given schedule depends on which earlier accesses its bounded shadow memory
+// happens to retain, so the pair may differ between two processes although
+// the schedule, and the presence of a race, are identical.
+func SameClass(a, b string) bool {
+	if len(a) >= 5 && len(b) >= 5 && a[:5] == "race:" && b[:5] == "race:" {
+		return true
+	}
+	return a == b
 }
